@@ -751,7 +751,8 @@ class Ty:
 
     def ref_compare(self, left, op, right):
         """`a is b` / `a is not b` on two objects held by reference; `==` / `!=` / `in` / `not in` on their `id()`s: equality of the
-        heap indices.  `==` / `in` on the OBJECTS goes by `__eq__` (by value for a GoalRegion) - not the same test: unsupported."""
+        heap indices.  `==` / `in` on the OBJECTS goes by `__eq__` (by value for a GoalRegion: CR.PyC05.goalEq on what the two
+        references hold) - not the identity test, and the tie to the model's loop over identities is then not provable."""
         try:
             (a, ta), (b, tb) = self.e(left), self.e(right)
         except Unsupported:
@@ -761,20 +762,33 @@ class Ty:
         neg = isinstance(op, (ast.IsNot, ast.NotEq, ast.NotIn))
         if isinstance(op, (ast.In, ast.NotIn)):
             kind = self.acc_kind.get(self.acc_of(right))
-            if tb != "refacc" or ta != "id" or kind != "id":
-                raise Unsupported("`in` on objects held by reference compares by value (__eq__), not by identity")
+            if tb != "refacc" or ta != kind:
+                raise Unsupported(f"`in`: {ta} in {tb}")
             g = self.fresh("g")
-            c = f"({b}.any (fun {g} => decide ({a} = {g})))"
+            if kind == "id":
+                c = f"({b}.any (fun {g} => decide ({a} = {g})))"
+            else:       # `x in list`: `x is e or x == e` per element, and `==` on the objects goes by VALUE
+                c = f"({b}.any (fun {g} => decide ({a} = {g}) || {self.val_eq(a, g)}))"
             return (f"(!{c})" if neg else c, "bool")
         if isinstance(op, (ast.Is, ast.IsNot)):
             if ta != "ref" or tb != "ref":
                 raise Unsupported(f"`is` between {ta} and {tb}")
         elif isinstance(op, (ast.Eq, ast.NotEq)):
+            if ta == "ref" and tb == "ref":     # `==` on the objects: __eq__, by VALUE - not the identity test
+                c = self.val_eq(a, b)
+                return (f"(!{c})" if neg else c, "bool")
             if ta != "id" or tb != "id":
-                raise Unsupported("`==` on objects held by reference compares by value (__eq__), not by identity")
+                raise Unsupported(f"`==` between {ta} and {tb}")
         else:
             raise Unsupported("comparison of object references")
         return (f"decide ({a} {'≠' if neg else '='} {b})", "bool")
+
+    def val_eq(self, a, b):
+        R = self.t.refs
+        if not self.in_sloop or "val_eq" not in R:
+            raise Unsupported("`==` on objects held by reference")
+        heap = self.in_sloop[1]
+        return f"({R['val_eq']} {R['deref'].format(heap=heap, ref=a)} {R['deref'].format(heap=heap, ref=b)})"
 
     def inplace_ref(self, recv, a, ty, pad):
         """`x.translate_rotate(..)` on a loop element that holds an object by reference (dereference, call the method on the
@@ -1100,7 +1114,7 @@ def targets():
                  "deref": "(" + R + "goalAt {heap} {ref})",
                  "obj_method": (R + "Problem.move m", "(⟨{initial_state}, {obj}⟩ : " + R + "Problem)",
                                 {"initial_state": "init", "_initial_state": "init"}, "goal"),
-                 "ref_method": "GoalRegion_translate_rotate m", "binders": f"(m : {R}Mo)", "args": "m"},
+                 "ref_method": "GoalRegion_translate_rotate m", "val_eq": "CR.PyC05.goalEq", "binders": f"(m : {R}Mo)", "args": "m"},
            doc="on the reference view: `ps.goals` = the GoalRegion objects (an index is an identity), a problem = (initial state, "
                "index of the goal-region object it holds); `x.translate_rotate` on a problem = PlanningProblem.translate_rotate on "
                "the dereferenced record (model Problem.move, tied above), the moved goal region written back to the heap"))
